@@ -19,6 +19,7 @@ var commands = map[string]func([]string){
 	"conc-sched":  cmdConcSched,
 	"conc-orders": cmdConcOrders,
 	"conc-free":   cmdConcFree,
+	"ownpost":     cmdOwnPost,
 }
 
 func main() {
